@@ -174,7 +174,7 @@ static void aead_enc(const Args &a) {
     for (size_t i = 0; i < fams.size(); ++i) { if (i) res += ","; res += run_enc(sc, fams[i], a, k, n, ad, m); }
     res += "]";
     Ev ev("aead.enc"); ev.s("scheme", sc.name).b("k", k).b("n", n).b("ad", ad).b("m", m);
-    ev.n("inplace", a.num("inplace")).l("chunks", a.list("chunks")).raw("res", res).n("mask_calls", tape_mask_calls());
+    ev.n("inplace", a.num("inplace")).l("chunks", a.list("chunks")).raw("res", res);
     ev.emit();
 }
 
